@@ -568,9 +568,15 @@ fn plans_base(prop: &str, tier: &str) -> Vec<Plan> {
             let mut ru = sc_reuse(prop);
             ru.check.c11 = true;
             ru.variants = vec![(false, false), (true, false), (false, true), (true, true)];
+            // zero displays, a reserve whose replenish amount is Some(0) / absent, a fully hidden reserve: type
+            // parameters whose serialized form is special must survive every restore path (round 8: C11v-A)
+            let mut z = sc_zero(prop);
+            z.check.c11 = true;
+            z.variants = vec![(false, false), (true, false), (false, true), (true, true)];
             vec![
                 Plan { cfg: bk, depth: d(3, 4) },
                 Plan { cfg: rt, depth: d(3, 4) },
+                Plan { cfg: z, depth: d(3, 4) },
                 Plan { cfg: o, depth: d(4, 6) },
                 Plan { cfg: ru, depth: d(8, 12) },
             ]
